@@ -55,7 +55,7 @@ CLAIMED.update({
             "Exploration: operands over ints (extremes, neighbours of 2^53), floats (+-0.0, 2^53, +-1e300), atoms (unicode, spaces, prefixes), non-constants; literal or through variable chains; API, named text form, infix text form; outcome must equal the comparison table and at most one answer.",
             "The table is the documented rule (numbers numerically with int->f64 conversion, atoms by string order, anything else fails).", "DESIGN.md §4 C14"),
     "C15": ("invariant (well-formedness) + round trip to the element sequence over generated element sequences and six list builders",
-            "Exploration: sequences of 0-5 elements incl. nested/empty lists in last position and tails, built by parse_linked_list, recreate_variables, append, include, exclude and make_linked_list; node chain, counts, tail flags, terminator and decoded elements are checked.",
+            "Exploration: sequences of 0-5 elements incl. nested/empty lists in last position and tails, built by parse_linked_list, recreate_variables, append, include, exclude (inputs also written with a tail variable that an earlier unification bound to the rest of the sequence) and make_linked_list; node chain, counts, tail flags, terminator and decoded elements are checked.",
             "A lone list argument to make_linked_list is treated as unspecified and discarded.", "DESIGN.md §4 C15"),
     "C16": ("differential testing of append against a reference function on generated argument tuples inside generated clauses",
             "Exploration: 1-4 inputs (lists with nested/empty/list-valued last elements, bound-variable elements, tails bound through chains; atoms, numbers, complex terms) and three kinds of Out; compared with the reference append via the reference solver.",
@@ -73,16 +73,16 @@ CLAIMED.update({
             "Exploration: grammar terms, generated signed numbers (optional sign, 1-20 digits, optional fraction), punctuation and odd atoms placed alone, as first/second/third argument of complex terms, goals, built-ins, functions, queries and facts (with a blank, without one, with two blanks or a tab after the comma, padded with blanks), as (nested) list element with the same spacing variants and before a tail, as infix operand alone and inside a rule body; all contexts must yield the same term or all must reject.",
             "Ids are stripped before comparing (query construction renames).", "DESIGN.md §4 C20"),
     "C21": ("differential testing of load_kb_from_file against rule-by-rule parse_rule over generated files with random legal layout",
-            "Exploration: 1-5 generated rules laid out with breaks after the documented continuation characters (`:-`, `,`, `;`, infix `=` `==` `<=` `>=` and ` - `), indentation, blank lines and #, %, // comments; the loaded knowledge base must equal the rule-by-rule one (class 1: breaks outside parentheses and brackets; class 2: breaks after the same characters also inside argument lists, lists and parenthesised groups of goals, where a rejection with an error is accepted as well).",
+            "Exploration: 1-5 generated rules laid out with breaks after the documented continuation characters (`:-`, `,`, `;`, infix `=` `==` `<=` `>=` and ` - `), indentation, blank lines and #, %, // comments; the loaded knowledge base must equal the rule-by-rule one (class 1: breaks outside parentheses and brackets; class 2: breaks after the same characters also inside argument lists, lists and parenthesised groups of goals, where a rejection with an error is accepted as well). A third of the files are loaded into a knowledge base that already holds rules (possibly of the same predicates) and some files are loaded twice; the reference adds the parsed rules to the same prior content.",
             "A file is in the claim only if each rule is accepted by parse_rule on its own.", "DESIGN.md §4 C21"),
     "C22": ("metamorphic testing over generated query histories (stateful: history as a vector of operations) with a reference check of the baseline",
-            "Exploration: 1-5 earlier queries in generated modes (abandoned, exhausted, re-asked, solve, solve_all, timed out, unknown predicate) followed by the query under test; answers and output must equal those of the same query run first. In a few cases per run the caller of the final query sleeps 1.1 s between its first and second answer, so a timer left armed by any earlier solve/solve_all call (whichever way that call ended) fires while the query is live.",
+            "Exploration: 1-5 earlier queries in generated modes (abandoned, exhausted, re-asked, solve, solve_all, timed out, unknown predicate) (and rules for new predicates added to the knowledge base between queries) followed by the query under test, built with make_query or with parse_query from its text (`name(args)`, with a trailing period, bare `name` when it has no arguments); answers and output must equal those of the same query run first. In a few cases per run the caller of the final query sleeps 1.1 s between its first and second answer, so a timer left armed by any earlier solve/solve_all call (whichever way that call ended) fires while the query is live.",
             "Timed-out earlier queries are produced through start_query_timer(1)/cancel_timer (the state solve() leaves after a timeout); real 1 s timeouts are exercised by C23.", "DESIGN.md §4 C22"),
     "C23": ("oracle-checked runs over generated programs with the timer firing at a harness-chosen search step (stop_query() injected at the k-th next_solution), plus runs under the real timer thread: fast generated queries, calibrated slow queries on both sides of the 1 s limit, stray-timer rounds",
-            "Exploration: solve/solve_all results must be a prefix of the real answers, complete unless followed by the timeout message, which may only appear after >= 0.95 s; fast queries must never time out; thousands of microsecond queries ending in every possible way must not leave a timer that stops a later query; for generated programs (cut, not, and/or, built-ins) the stop flag is raised at 4 generated search steps each and solve_all / successive solve calls must still report a prefix of the answers, a timeout message only if the flag was raised, and never panic.",
+            "Exploration: solve/solve_all results must be a prefix of the real answers, complete unless followed by the timeout message, which may only appear after >= 0.95 s; fast queries must never time out; thousands of microsecond queries ending in every possible way must not leave a timer that stops a later query; for generated programs (cut, not, and/or, built-ins) the stop flag is raised at 4 generated search steps each and solve_all / successive solve calls must still report a prefix of the answers, a timeout message only if the flag was raised, and never panic; solve_all / solve on nodes that were made before another query timed out must not report a timeout; asking a timed-out node again needs another second before it may say timeout again.",
             "The real timer thread's interleavings are sampled by real time; the injected-stop class owns the schedule at the granularity of next_solution entries (the only places the engine reads the flag are behind them). Overloaded-machine timings are counted as inconclusive discards.", "DESIGN.md §4 C23"),
     "C24": ("generated programs and call histories (proptest) replayed through the public API under Miri as the undefined-behaviour detector (Stacked Borrows, data races, out-of-bounds, use-after-free)",
-            "Exploration: about 100 (quick) / 800 (thorough) generated histories - enumerate and re-ask, solve_all + solve, abandoned query + second query, parse + solve, timer firing during a search, a cut executing underneath not(...)/time(...) - executed under Miri in 16 parallel processes; any Undefined Behavior diagnostic is a violation identified by diagnostic kind and source location. The shallowest check of the set: hundreds of histories, not millions.",
+            "Exploration: about 100 (quick) / 800 (thorough) generated histories - enumerate and re-ask, solve_all + solve, abandoned query + second query, parse + solve, timer firing during a search, a cut executing underneath not(...)/time(...), loading the program from a file, adding rules for new predicates between two runs of a query - executed under Miri in 16 parallel processes; any Undefined Behavior diagnostic is a violation identified by diagnostic kind and source location. The shallowest check of the set: hundreds of histories, not millions.",
             "Miri's Stacked Borrows model is taken as the definition of aliasing UB; leaks are ignored; the timer thread's schedule is sampled (Miri scheduler seed = VERIF_SEED + shard), not enumerated. Needs `cargo +nightly miri` (pre-installed).", "DESIGN.md §4 C24"),
 })
 
